@@ -10,7 +10,8 @@ RULE = ("one case = one session against a real in-process broker (1-4 clients ov
         "repetitions of each other, wildcard filters, repeated (un)subscribes), publish (incl. me=0, link aliases, bad keys, "
         "keys without the permission, invalid channels), link requests with and without auto-subscribe; after every request "
         "the packets every client received are compared; sessions end with a trie dump. non-trivial = distinct (op, answer)")
-TRUSTED = ["net.Pipe and the reader goroutines of the harness; quiescence is detected by polling (presence queue empty, no new packet for ~1 ms)",
+TRUSTED = ["the broker's own publishes on stats/<node>/ (monitoring sink 'self', once a second, into the owner's contract) are not answers to a request and are dropped from the observables",
+           "net.Pipe and the reader goroutines of the harness; quiescence is detected by polling (presence queue empty, no new packet for ~1 ms)",
            "authorization is the C03 model (Security.authorize) instantiated with the session's license; the broker theorems hold for every authorizer"]
 ASSUMPTIONS = ["requests are issued one at a time (histories, not schedules)"]
 CLAIM = {
